@@ -229,14 +229,14 @@ def fastmode_trees(chk, hscan, K):
         strs = [bytes(r.choice(b"abcxyz019") for _ in range(r.range(1, 3))) for _ in range(condgen.NSTR)]
         names = ["r0", "r1"]
         trees = [condgen.Gen(r.fork(), k, 3).bexpr(r.range(1, 4)) for k in range(2)]
-        decl = " ".join('$_s%d = "%s"' % (j, strs[j].decode()) for j in range(condgen.NSTR))
+        decl = " ".join('$%s = "%s"' % (condgen.sid(j), strs[j].decode()) for j in range(condgen.NSTR))
         src = "".join("rule %s { strings: %s condition: %s }\n" % (names[k], decl, condgen.Printer(names).raw(t)) for k, t in enumerate(trees))
         # aimed at the SINGLE_MATCH shortcut: strings referenced ONLY through one operator, whose first occurrence
         # lies outside the tested range / offset and a later one inside
         lo = r.range(4, 10)
-        aimed = r.choice(["any of them in (%d..%d)" % (lo, lo + 6), "1 of ($_s0,$_s1) in (%d..%d)" % (lo, lo + 8),
-                          "any of them at %d" % lo, "$_s0 in (%d..%d)" % (lo, lo + 6), "$_s1 at %d" % lo,
-                          "for any of them : ( $ in (%d..%d) )" % (lo, lo + 6), "#_s0 == 2", "@_s1[2] == %d" % lo,
+        aimed = r.choice(["any of them in (%d..%d)" % (lo, lo + 6), "1 of ($_s0,$_s2) in (%d..%d)" % (lo, lo + 8),
+                          "any of them at %d" % lo, "$_s0 in (%d..%d)" % (lo, lo + 6), "$_s01 at %d" % lo,
+                          "for any of them : ( $ in (%d..%d) )" % (lo, lo + 6), "#_s0 == 2", "@_s01[2] == %d" % lo,
                           "all of them in (%d..%d)" % (lo, lo + 12)])
         src += "rule aimed { strings: %s condition: %s }\n" % (decl, aimed)
         size = r.choice([12, 24, 40])
